@@ -89,6 +89,10 @@ impl CommandAnalyzer {
         let file_paths = crate::verif_hooks::permute("S1.files", file_paths, |p| {
             p.to_string_lossy().to_string()
         });
+        // HashMap key order is random per process; fix the processing order so that commands,
+        // events and the cache hash come out the same on every run
+        let mut file_paths = file_paths;
+        file_paths.sort();
         let mut commands = Vec::new();
         let mut type_names_to_discover = HashSet::new();
 
